@@ -282,7 +282,7 @@ def _cs_rely(m):
 control = Contract(
     name="ControlStream.data_generator", qual="audiolazy/lazy_stream.py::ControlStream.__init__.data_generator", kind="generator", props=["C16"],
     modes={"any": Mode(params=dict(self=lib.RawObj("ControlStream", value=z3.Real("value0"))), ensures=[("S:endless", "False")])},
-    spec_env={},
+    spec_env={}, replay="oracles.c16:control",
     loops={1: Loop(inv=[])},
     yields={1: Yield(post=[("S:yields-the-value-most-recently-assigned", "result == VALUE(self)")], rely=_cs_rely)},
     stated=["a ControlStream yields, at every sample, the value most recently assigned to it"],
